@@ -352,6 +352,25 @@ def run(chk, facts, tier, only=None):
                        where=f"{h['span']['file']}:{stmts[min(i_push)].get('ln')}", ok_detail="find_type; chase_type(body); res.push(id)")
             rec_recv = [root_local(sc, x["recv"]) for x in walk(body) if x.get("k") == "mcall" and x["m"] == "push"]
             chk.expect(all(r is not None and r.kind == "param" for r in rec_recv), "chase_type:pushes-result-list", "chase_type must push onto its result parameter")
+        # (a0) both walkers visit every constructor that contains types: a constructor left to the fall-through arm hides the definitions
+        #      (chase_type) or the forward references (infer_rec::go) below it
+        CHILDREN = ("Opt", "Vec", "Record", "Variant", "Func", "Service", "Class")
+        for wname in ("chase_type", "infer_rec::go"):
+            wh = c.fn("^" + re.escape(AN + wname) + "$")
+            chk.analysed(wh["key"])
+            wm = the_match(wh, r"TypeInner$", 5)
+            covered = set()
+            for row in arm_rows(wm):
+                rec = any(x.get("k") == "call" and callee(x) == wh["key"] for x in walk(row["body"]))
+                for hd in row["heads"]:
+                    if isinstance(hd[0], str) and hd[0].startswith(TI) and rec:
+                        covered.add(hd[0][len(TI):])
+            missing = [x for x in CHILDREN if x not in covered]
+            chk.expect(not missing, f"{wname.replace('::', '.')}:descends-into-every-constructor",
+                       f"{wname} does not descend into {missing}: types below such a constructor are not chased / not scanned for forward "
+                       f"references, so a definition used only there is missing from the output or a cycle through it is not marked recursive "
+                       f"(no IDL.Rec() in JavaScript, no Box in Rust)", where=f"{wh['span']['file']}:{wh['span']['lo']}",
+                       ok_detail=f"recurses under {sorted(covered)}")
         # (a'') producers of definition lists: each list is filled by chase_type alone, under one visited set that lives as long as the list
         #       (two visited sets for one list, or lists spliced together, list a definition twice: `const x` declared twice)
         ct = c.fn("^" + re.escape(AN + "chase_type") + "$")
